@@ -34,7 +34,7 @@ JOBS = int(os.environ.get("VF_JOBS", "16"))
 
 def _worker(spec, hard_timeout):
     env = dict(os.environ)
-    env["PYTHONPATH"] = ROOT + os.pathsep + env.get("PYTHONPATH", "")
+    env["PYTHONPATH"] = (os.environ["VF_REPO"] + os.pathsep if os.environ.get("VF_REPO") else "") + ROOT + os.pathsep + env.get("PYTHONPATH", "")
     env.setdefault("PYTHONHASHSEED", "0")
     env.pop("VF_REAL", None)
     if spec.get("mode") == "replay":
